@@ -14,10 +14,18 @@ mod c01;
 
 mod c02;
 mod c03;
+mod c04;
 mod c05;
+mod c06;
+mod c07;
+mod c08;
+mod c09;
 mod c13;
 mod structure;
 mod c10;
+mod c11;
+mod c12;
+mod c14;
 
 use std::path::Path;
 
@@ -34,8 +42,16 @@ fn run_property(id: &str, rep: &Report) {
         "C01" => c01::run(rep),
         "C02" => c02::run(rep),
         "C03" => c03::run(rep),
+        "C04" => c04::run(rep),
         "C05" => c05::run(rep),
+        "C11" => c11::run(rep),
+        "C12" => c12::run(rep),
         "C13" => c13::run(rep),
+        "C14" => c14::run(rep),
+        "C06" => c06::run(rep),
+        "C07" => c07::run(rep),
+        "C08" => c08::run(rep),
+        "C09" => c09::run(rep),
         "C10" => c10::run(rep),
         _ => {
             eprintln!("unknown or not yet implemented property {}", id);
@@ -49,8 +65,16 @@ fn replay_property(id: &str, case: &J, rep: &Report) {
         "C01" => c01::replay(case, rep),
         "C02" => c02::replay(case, rep),
         "C03" => c03::replay(case, rep),
+        "C04" => c04::replay(case, rep),
         "C05" => c05::replay(case, rep),
+        "C11" => c11::replay(case, rep),
+        "C12" => c12::replay(case, rep),
         "C13" => c13::replay(case, rep),
+        "C14" => c14::replay(case, rep),
+        "C06" => c06::replay(case, rep),
+        "C07" => c07::replay(case, rep),
+        "C08" => c08::replay(case, rep),
+        "C09" => c09::replay(case, rep),
         "C10" => c10::replay(case, rep),
         _ => {
             eprintln!("unknown property {} in replay file", id);
